@@ -16,6 +16,7 @@ from rv import util
 from rv.model import pp as PP
 from rv.util import B, CLASSES, call, mk, rb
 
+AMBIENT = ['bytealigned', 'mxfp_overflow']      # options this property does not depend on: a quarter of the cases run with them switched
 PROP = 'C19'
 SHARDS = {'quick': 4, 'thorough': 16}
 RULE = ("text cases: every length 0..1100 plus 996..1004 x 4 classes, long values (1001..9000), file-backed "
